@@ -244,6 +244,94 @@ def run_case(args):
     return res
 
 
+def _worker(inq, outq):
+    while True:
+        item = inq.get()
+        if item is None:
+            break
+        idx, job = item
+        outq.put(('start', idx, os.getpid(), time.time()))
+        try:
+            res = run_case(job)
+        except BaseException as e:      # never let a worker die silently
+            res = dict(case=job[1], paths=0, stats={}, outcomes={}, candidates=[], unknown=[], notenc=[], samples=[], validated=0,
+                       validation_mismatch=0, validation_skipped=0, truncated=True, wall_s=0.0, assumptions=[], error='worker: %r' % (e,))
+        outq.put(('done', idx, res))
+
+
+def run_pool(jobs, nproc, hard_limit, verbose=False):
+    """own process pool: a case that stays inside a solver call beyond the hard limit (z3 does not always honour its time-out) is killed and
+    reported as truncated instead of blocking the whole check"""
+    ctxm = mp.get_context('fork')
+    inq, outq = ctxm.Queue(), ctxm.Queue()
+    for i, j in enumerate(jobs):
+        inq.put((i, j))
+    procs = {}
+
+    def spawn():
+        p = ctxm.Process(target=_worker, args=(inq, outq), daemon=True)
+        p.start()
+        procs[p.pid] = p
+    for _ in range(nproc):
+        spawn()
+    running = {}        # pid -> (idx, start)
+    results = {}
+    while len(results) < len(jobs):
+        try:
+            msg = outq.get(timeout=2.0)
+        except Exception:
+            msg = None
+        if msg is not None:
+            if msg[0] == 'start':
+                running[msg[2]] = (msg[1], msg[3])
+            else:
+                _, idx, res = msg
+                results[idx] = res
+                for pid, (i2, _) in list(running.items()):
+                    if i2 == idx:
+                        running.pop(pid, None)
+                if verbose:
+                    r = res
+                    print('  case %s: paths=%d %s cand=%d unk=%d %.1fs %s' % (json.dumps(r['case'], default=str)[:100], r['paths'], r['outcomes'],
+                                                                              len(r['candidates']), len(r['unknown']), r['wall_s'], r.get('error', '')), flush=True)
+        now = time.time()
+        for pid, (idx, t0) in list(running.items()):
+            if now - t0 > hard_limit and idx not in results:
+                try:
+                    os.kill(pid, signal.SIGKILL)
+                except OSError:
+                    pass
+                running.pop(pid, None)
+                procs.pop(pid, None)
+                case = jobs[idx][1]
+                results[idx] = dict(case=case, paths=0, stats={}, outcomes={'killed': 1}, candidates=[], unknown=[dict(label='case killed: a solver call exceeded the hard limit', trace=[])],
+                                    notenc=[], samples=[], validated=0, validation_mismatch=0, validation_skipped=0, truncated=True, wall_s=now - t0,
+                                    assumptions=[], solver_timeouts=1)
+                spawn()
+        for pid, (idx, t0) in list(running.items()):
+            p = procs.get(pid)
+            if p is not None and not p.is_alive() and idx not in results:
+                running.pop(pid, None)
+                procs.pop(pid, None)
+                results[idx] = dict(case=jobs[idx][1], paths=0, stats={}, outcomes={'killed': 1}, candidates=[], unknown=[dict(label='worker process died', trace=[])],
+                                    notenc=[], samples=[], validated=0, validation_mismatch=0, validation_skipped=0, truncated=True, wall_s=now - t0,
+                                    assumptions=[], solver_timeouts=1)
+                spawn()
+        # a worker that died for another reason: replace it so that the queue keeps draining
+        for pid, p in list(procs.items()):
+            if not p.is_alive() and pid not in running:
+                procs.pop(pid, None)
+                if len(results) + len(running) < len(jobs):
+                    spawn()
+    for _ in procs:
+        inq.put(None)
+    for p in procs.values():
+        p.join(timeout=1)
+        if p.is_alive():
+            p.terminate()
+    return [results[i] for i in range(len(jobs))]
+
+
 def load_known(prop):
     if not os.path.exists(KNOWN):
         return []
@@ -338,13 +426,7 @@ def main(argv=None):
         for j in jobs:
             results.append(run_case(j))
     else:
-        ctxm = mp.get_context('fork')
-        with ctxm.Pool(min(a.jobs, len(jobs))) as pool:
-            for r in pool.imap_unordered(run_case, jobs, chunksize=1):
-                results.append(r)
-                if a.verbose:
-                    print('  case %s: paths=%d %s cand=%d unk=%d %.1fs %s' % (json.dumps(r['case'], default=str)[:100], r['paths'], r['outcomes'],
-                                                                              len(r['candidates']), len(r['unknown']), r['wall_s'], r.get('error', '')), flush=True)
+        results = run_pool(jobs, min(a.jobs, len(jobs)), hard_limit=2 * cfg['case_wall_s'] + 120, verbose=a.verbose)
     # ------------------------------------------------------------------ aggregate
     agg = dict(paths=0, decisions=0, obligations=0, discharged=0, unknown=0, queries=0, solver_s=0.0, lin_unsat=0,
                nra_queries=0, infeasible=0, trivially=0, decide_unknown=0)
